@@ -56,7 +56,7 @@ Start ==
          agree(m) == m.pass = pass /\ m.trans = Ev.trans
      IN
      /\ bad' = ReportAll(bad, scn, l, <<
-          <<~(g.state = "tripped" /\ now < g.shield /\ pass), "C05.TrippedShields">>,
+          <<~(now < g.shield /\ pass), "C05.TrippedShields">>,
           <<~(g.state = "standby" /\ ~pass), "C05.StandbyPasses">>,
           <<~pass => Ev.fallback /\ ~Ev.entered, "C05.FallbackAnswers">>,
           <<pass => ~Ev.fallback, "C05.FallbackAnswers">>,
@@ -134,7 +134,7 @@ CAdmit ==       \* decision taken under the breaker's lock (not standby at the q
   /\ IsEvent("CAdmit")
   /\ LET el == now - g.rstart  D == cfg.recovery  inRamp == g.state = "recovering" /\ now <= g.rstart + D IN
      /\ bad' = ReportAll(bad, scn, l, <<
-          <<~(g.state = "tripped" /\ now < g.shield /\ Ev.pass), "C05.TrippedShields">>,
+          <<~(now < g.shield /\ Ev.pass), "C05.TrippedShields">>,
           <<~(g.state = "standby" /\ ~Ev.pass), "C05.StandbyPasses">>,
           <<~(inRamp /\ Ev.pass /\ ~(2 * D * (g.a + 1) <= el * (g.a + g.d + 1))), "C12.PassWithinRamp">>,
           <<~(inRamp /\ ~Ev.pass /\ ~(2 * D * (g.a + 1) >= el * (g.a + g.d + 1))), "C12.RefuseOnlyAtRamp">> >>)
